@@ -288,6 +288,11 @@ impl Model {
     pub fn ping_ms(&self) -> u64 {
         self.ping_override.or(self.ska_ms).unwrap_or(self.ka_ms)
     }
+    /// outbound flow control is judged on an established v5.0 connection, and on a server between CONNECT and
+    /// CONNACK (the limit of THIS connection is already known there)
+    pub fn flow_judged(&self) -> bool {
+        self.v5() && !self.unsynced && (self.status == St::Cd || (self.status == St::Cg && self.path == Some(Path::Server)))
+    }
     pub fn store_mode(&self) -> bool {
         self.persistent || self.offline_since_connect
     }
@@ -731,7 +736,7 @@ impl Model {
                             self.owner.remove(&i);
                         }
                     }
-                    if err_name == "ReceiveMaximumExceeded" && self.status == St::Cd && !self.unsynced {
+                    if err_name == "ReceiveMaximumExceeded" && self.flow_judged() {
                         s.hit("F2-accept-iff-below-receive-maximum");
                         if let Some(m) = self.m_send {
                             if self.out.len() < m as usize {
@@ -746,7 +751,8 @@ impl Model {
                     });
                     if *qos > 0 {
                         let i = id.unwrap();
-                        if self.status == St::Cd && self.v5() && !self.unsynced {
+                        // (a server knows the client's Receive Maximum from the CONNECT: it applies to what it queues before the CONNACK too)
+                        if self.flow_judged() {
                             if let Some(m) = self.m_send {
                                 s.hit("F2-accept-iff-below-receive-maximum");
                                 if self.out.len() >= m as usize {
@@ -756,6 +762,10 @@ impl Model {
                         }
                         self.owner.insert(i, if *qos == 1 { Owner::PubAck } else { Owner::PubRec });
                         // S1 is judged in post_checks (needs the actual store)
+                    }
+                    if sent.is_none() && *qos > 0 && self.status == St::Cg && self.path == Some(Path::Server) && self.v5() {
+                        // queued for the flush after the CONNACK: already an exchange of this connection
+                        self.out.insert(id.unwrap());
                     }
                     if let Some(p) = &sent {
                         // application intent: registration of an alias by this very packet counts once accepted
@@ -1392,7 +1402,7 @@ impl Model {
             }
         }
         // --- vacancy (C12)
-        if self.status == St::Cd && self.v5() && !self.unsynced {
+        if self.flow_judged() {
             if let Ok(v) = conn.vacancy() {
                 s.hit("F1-vacancy-equals-max-minus-outstanding");
                 let want = self.m_send.map(|m| (m as usize).saturating_sub(self.out.len()) as u16);
